@@ -4,6 +4,7 @@ package main
 
 import (
 	"fmt"
+	"os"
 	"go/ast"
 	"go/constant"
 	"go/token"
@@ -79,6 +80,7 @@ type Enc struct {
 	callIndex        map[string][]ssa.Instruction
 	siteInstrs       map[*Site][]ssa.Instruction
 	curSiteInstr     ssa.Instruction
+	compositeKeys    map[string][]compKey
 }
 
 type Frame struct {
@@ -230,8 +232,32 @@ func (e *Enc) newFrame(fn *ssa.Function, parent *Frame) *Frame {
 		}
 	}
 	// ordinals by source position of the head's first instruction with a position / loop statement
-	sort.Slice(heads, func(i, j int) bool { return loopPos(heads[i]) < loopPos(heads[j]) })
+	lpos := map[*ssa.BasicBlock]token.Pos{}
+	for _, h := range heads {
+		best := token.Pos(1 << 40)
+		for b := range fr.loops[h].body {
+			for _, in := range b.Instrs {
+				switch in.(type) {
+				case *ssa.Phi, *ssa.DebugRef:
+					continue
+				}
+				if p := in.Pos(); p.IsValid() && p < best {
+					best = p
+				}
+			}
+		}
+		lpos[h] = best
+	}
+	sort.SliceStable(heads, func(i, j int) bool {
+		if lpos[heads[i]] != lpos[heads[j]] {
+			return lpos[heads[i]] < lpos[heads[j]]
+		}
+		return heads[i].Index < heads[j].Index
+	})
 	for i, h := range heads {
+		if os.Getenv("GOWP_LOOPS") != "" && fn.Prog != nil {
+			fmt.Fprintf(os.Stderr, "loop %d of %s: head block %d at %v\n", i, fn.Name(), h.Index, fn.Prog.Fset.Position(lpos[h]))
+		}
 		fr.loops[h].ordinal = i
 		for _, in := range h.Instrs {
 			if p, ok := in.(*ssa.Phi); ok {
@@ -752,6 +778,19 @@ func (e *Enc) backEdge(fr *Frame, li *loopInfo, from *ssa.BasicBlock) {
 					break
 				}
 			}
+		}
+	}
+	if li.ann != nil && len(li.ann.Steps) > 0 {
+		cond := e.edgeCond(fr, from, li.head)
+		ov := map[ssa.Value]Val{}
+		pi := predIndex(li.head, from)
+		for _, phi := range li.phis {
+			ov[phi] = e.val(fr, phi.Edges[pi])
+		}
+		for j, stp := range li.ann.Steps {
+			ctx := &ExprCtx{e: e, fr: fr, st: fr.states[from], old: li.headState, block: from, idx: len(from.Instrs), phiOverride: ov, atLoopHead: li, fc: e.fc, stepLoop: li}
+			g := e.safeBool(ctx, stp, "loop step")
+			e.addObligation("step", fmt.Sprintf("loop%d#%d", li.ordinal, j), cond, g, stp.Text)
 		}
 	}
 	if li.ann == nil || len(li.ann.Invariants) == 0 {
